@@ -69,8 +69,17 @@ def mk_add(l, r):
     return out
 
 
+def _range_len(x):
+    return ("call", ("global", "builtins.range"),
+            (("call", ("global", "builtins.len"), (x,), ()),), ())
+
+
 def mk_index(base, idx):
-    """base[idx]; x[a:][k] is x[a+k] for non-negative constants."""
+    """base[idx]; x[a:][k] is x[a+k] for non-negative constants; x[i] for the
+    representative index i of range(len(x)) is the representative element
+    of x."""
+    if idx[0] in ("elem", "elem2") and idx[1] == _range_len(base):
+        return (idx[0], base)
     if base[0] == "slice" and base[3] is None and idx[0] == "const" \
             and isinstance(idx[1], int) and idx[1] >= 0 \
             and base[2] is not None and base[2][0] == "const" \
@@ -1087,7 +1096,11 @@ class Interp:
                     and self.inline(repo[0].fn):
                 c = repo[0]
                 recv = None
-                if c.how in ("cha", "method", "bound", "byname", "field") \
+                decos = {getattr(d, "id", getattr(d, "attr", None))
+                         for d in c.fn.node.decorator_list}
+                if "staticmethod" in decos:
+                    recv = None
+                elif c.how in ("cha", "method", "bound", "byname", "field") \
                         and isinstance(f, ast.Attribute):
                     recv = self.eval(f.value, env)
                 elif c.how == "basecall":
@@ -1394,6 +1407,13 @@ class Interp:
         # one representative element of the iterated sequence (the same
         # representative for every loop over the same sequence)
         el = ("elem", it)
+        el2 = ("elem2", it)
+        if it[0] == "call" and it[1] == ("global", "builtins.enumerate") \
+                and len(it[2]) == 1 and not it[3]:
+            # enumerate(x) yields (i, x[i]) for the representative index i
+            x = it[2][0]
+            el = ("tuple", (("elem", _range_len(x)), ("elem", x)))
+            el2 = ("tuple", (("elem2", _range_len(x)), ("elem2", x)))
         self.assign(st.target, el, env, st)
         self.path.effects.append(("loop-enter", st.lineno, it, st))
         self.loop_depth += 1
@@ -1405,10 +1425,18 @@ class Interp:
                 return
             except _Continue:
                 pass
-            if policy == "twice" and self.decide(("loop", "second", it)):
+            lk = it
+            if it[0] == "call" and it[1] == ("global", "builtins.enumerate") \
+                    and len(it[2]) == 1:
+                lk = it[2][0]
+            elif it[0] == "call" and it[1] == ("global", "builtins.range") \
+                    and len(it[2]) == 1 and it[2][0][0] == "call" \
+                    and it[2][0][1] == ("global", "builtins.len"):
+                lk = it[2][0][2][0]
+            if policy == "twice" and self.decide(("loop", "second", lk)):
                 # a second, distinct representative: what one element leaves
                 # behind (a remembered candidate, a flag) meets another one
-                self.assign(st.target, ("elem2", it), env, st)
+                self.assign(st.target, el2, env, st)
                 try:
                     self._block(st.body, env)
                 except _Break:
